@@ -3,6 +3,7 @@ package main
 import (
 	"encoding/json"
 	"fmt"
+	"math"
 	"math/rand"
 	"os"
 	"runtime"
@@ -152,6 +153,11 @@ func (e *tmExec) call(d time.Duration, slow time.Duration, far bool, nilFn bool)
 	f := timeout.Call(fn, d)
 	ta := e.stamp()
 	fu.fut = f
+	if d > 1000*time.Second {
+		// "never": what is recorded (and reasoned with) is a stand-in of 1000 s - TLC's integers are 32-bit, and for
+		// the contract any delay beyond the run's horizon is the same delay
+		d = 1000 * time.Second
+	}
 	fu.refNs = ta + int64(d)
 	if nilFn {
 		// nothing was scheduled: the contract has nothing to say about this future except that
@@ -296,6 +302,11 @@ func (e *tmExec) runScript(sc tmScript, rnd *rand.Rand, alone bool) {
 			far := false
 			if e.p.stretch > 0 && st.D >= e.p.stretch {
 				d, far = tmFar, true
+				if rnd.Intn(3) == 0 {
+					// "never", as callers write it: the largest duration there is (its fire time lies beyond what a
+					// 64-bit nanosecond count of wall time can hold); cancelled after Quiesce like every far future
+					d = time.Duration(math.MaxInt64)
+				}
 			}
 			mine = append(mine, e.call(d, time.Duration(st.Slow)*e.p.unit, far, st.Nil))
 		case "cancel":
@@ -311,6 +322,25 @@ func (e *tmExec) runScript(sc tmScript, rnd *rand.Rand, alone bool) {
 			e.mu.Unlock()
 			if fu != nil && fu.ready.Load() && !fu.far {
 				e.cancel(fu)
+			}
+		case "chase":
+			// "a short delay scheduled while the dispatcher is on its way to sleep towards a distant one": a far
+			// Call wakes the dispatcher, and a few microseconds later - while it examines the queue, arms its timer
+			// and goes to sleep - a near Call arrives.  Thousands of rounds with a random gap; the far future is
+			// cancelled at the end of each round.  A wake-up lost in that window shows as a near future that is not
+			// started (Quiesce) or started seconds late.
+			for k := 0; k < st.N; k++ {
+				farFu := e.call(tmFar, 0, true, false)
+				for t0 := time.Now(); time.Since(t0) < time.Duration(rnd.Intn(30000)); {
+				}
+				near := e.call(200*time.Microsecond, 0, false, false)
+				for t0 := time.Now(); !near.started.Load() && time.Since(t0) < 2500*time.Millisecond; {
+					time.Sleep(50 * time.Microsecond)
+				}
+				e.cancel(farFu)
+				if !near.started.Load() {
+					break // the verdict is established at Quiesce; no need to wait 2.5 s a thousand times
+				}
 			}
 		case "tick":
 			n := st.N
@@ -626,6 +656,9 @@ func driveTimer(opt *Options) error {
 				j.p.late = false
 			}
 			jobs = append(jobs, j)
+		}
+		if geti("chase", 0) > 0 {
+			jobs = append(jobs, job{p: p, scripts: []tmScript{{{Op: "chase", N: geti("chase", 0)}}}})
 		}
 	default:
 		return fmt.Errorf("timer: unknown mode %q", mode)
